@@ -86,6 +86,10 @@ class MultiRef:
             return
         node.append(ref.children)
         node.setText(ref.getText())
+        # the moved content and attributes are written using the referenced
+        # node's own prefix declarations
+        for prefix, uri in list(ref.nsprefixes.items()):
+            node.addPrefix(prefix, uri)
         for a in ref.attributes:
             if a.name != 'id':
                 node.append(a)
